@@ -11,8 +11,8 @@
 EXTENDS Helpers, Json
 
 CONSTANTS MaxMsgs, MaxDepth, MaxTasks, MaxResv, ActTypes, MsgTypes, EarlyFinish, Stack, Mode, Emit, Broken
-VARIABLES S, resv
-vars == <<S, resv>>
+VARIABLES S, resv, nres      \* the list; reserved-and-not-yet-continued positions; how many were ever reserved
+vars == <<S, resv, nres>>
 
 Mk(u, lv, k, ty, st) == [u |-> u, lv |-> lv, k |-> k, ty |-> ty, st |-> st, f |-> [x |-> Len(S) + 1, c |-> 7]]
 NumTasks == Cardinality(Uuids(S))
@@ -29,20 +29,20 @@ Inner(a) == \A b \in Open : (b.u = a.u /\ IsPrefix(a.l, b.l)) => b = a
 May(a) == IF Stack THEN Inner(a) ELSE TRUE
 
 NewTask(ty) == /\ Room /\ NumTasks < MaxTasks /\ TyOK(ty)
-               /\ S' = Append(S, Mk(NumTasks + 1, <<1>>, "start", ty, "started")) /\ UNCHANGED resv
+               /\ S' = Append(S, Mk(NumTasks + 1, <<1>>, "start", ty, "started")) /\ UNCHANGED <<resv, nres>>
 CtxLess(ty) == /\ Room /\ NumTasks < MaxTasks
-               /\ S' = Append(S, Mk(NumTasks + 1, <<1>>, "msg", ty, "")) /\ UNCHANGED resv
+               /\ S' = Append(S, Mk(NumTasks + 1, <<1>>, "msg", ty, "")) /\ UNCHANGED <<resv, nres>>
 Child(a, ty) == /\ Room /\ Len(a.l) + 2 <= MaxDepth /\ TyOK(ty) /\ May(a)
-                /\ S' = Append(S, Mk(a.u, a.l \o <<NextPos(a), 1>>, "start", ty, "started")) /\ UNCHANGED resv
+                /\ S' = Append(S, Mk(a.u, a.l \o <<NextPos(a), 1>>, "start", ty, "started")) /\ UNCHANGED <<resv, nres>>
 Log(a, ty) == /\ Room /\ May(a)
-              /\ S' = Append(S, Mk(a.u, Append(a.l, NextPos(a)), "msg", ty, "")) /\ UNCHANGED resv
+              /\ S' = Append(S, Mk(a.u, Append(a.l, NextPos(a)), "msg", ty, "")) /\ UNCHANGED <<resv, nres>>
 Finish(a, st) == /\ Room
                  /\ IF EarlyFinish /\ ~Stack THEN TRUE ELSE Inner(a)
-                 /\ S' = Append(S, Mk(a.u, Append(a.l, NextPos(a)), "end", TypeOfAct(a), st)) /\ UNCHANGED resv
-Reserve(a) == /\ Room /\ Cardinality(resv) < MaxResv /\ Len(a.l) + 2 <= MaxDepth /\ May(a)
-              /\ resv' = resv \cup {[u |-> a.u, lv |-> Append(a.l, NextPos(a))]} /\ UNCHANGED S
+                 /\ S' = Append(S, Mk(a.u, Append(a.l, NextPos(a)), "end", TypeOfAct(a), st)) /\ UNCHANGED <<resv, nres>>
+Reserve(a) == /\ Room /\ nres < MaxResv /\ Len(a.l) + 2 <= MaxDepth /\ May(a)
+              /\ resv' = resv \cup {[u |-> a.u, lv |-> Append(a.l, NextPos(a))]} /\ nres' = nres + 1 /\ UNCHANGED S
 Continue(r, ty) == /\ Room
-                   /\ S' = Append(S, Mk(r.u, Append(r.lv, 1), "start", ty, "started")) /\ resv' = resv \ {r}
+                   /\ S' = Append(S, Mk(r.u, Append(r.lv, 1), "start", ty, "started")) /\ resv' = resv \ {r} /\ UNCHANGED nres
 
 GenNext == \/ \E ty \in ActTypes : NewTask(ty)
            \/ \E ty \in MsgTypes : CtxLess(ty)
@@ -95,7 +95,7 @@ Hand == <<H1, H2, H3, H4, H5>>
 HandPrefixes == UNION {{SubSeq(Hand[h], 1, n) : n \in 1..Len(Hand[h])} : h \in DOMAIN Hand}
 
 -----------------------------------------------------------------------------
-Init == IF Mode = "gen" THEN S = <<>> /\ resv = {} ELSE S \in HandPrefixes /\ resv = {}
+Init == IF Mode = "gen" THEN S = <<>> /\ resv = {} /\ nres = 0 ELSE S \in HandPrefixes /\ resv = {} /\ nres = 0
 Next == IF Mode = "gen" THEN GenNext ELSE FALSE /\ UNCHANGED vars
 Spec == Init /\ [][Next]_vars
 
@@ -103,12 +103,18 @@ AllTypes == ActTypes \cup MsgTypes \cup Types(S)
 SortedTypes == LET RECURSIVE F(_)                      \* strings cannot be ordered: any fixed order will do
                    F(X) == IF X = {} THEN <<>> ELSE LET x == CHOOSE y \in X : TRUE IN <<x>> \o F(X \ {x})
                IN F(AllTypes \cup {"absent"})
-Pred == [S |-> S,
-         types |-> [j \in DOMAIN SortedTypes |-> PredType(S, SortedTypes[j])],
+\* compact, as JSON arrays: S: [u, lv, k, ty, st, x, c]; T: [ty, err, acts, ptrees ("same" when equal to acts), desc, tt, msgs];
+\* aa: [ty, succ, sf, ef, out, ret]; am: [ty, exp, out, ret]
+Pred == [S |-> [i \in DOMAIN S |-> <<S[i].u, S[i].lv, S[i].k, S[i].ty, S[i].st, S[i].f.x, S[i].f.c>>],
+         T |-> [j \in DOMAIN SortedTypes |->
+                  LET p == PredType(S, SortedTypes[j]) IN
+                  <<p.ty, p.err, p.acts, IF p.ptrees = p.acts THEN <<"same">> ELSE p.ptrees, p.desc, p.tt, p.msgs>>],
          aa |-> LET qs == SetToSeq(UNION {ActionQueries(S, ty) : ty \in AllTypes \cup {"absent"}})
-                IN [j \in DOMAIN qs |-> [q |-> qs[j], r |-> AssertHasAction(S, qs[j].ty, qs[j].succ, qs[j].sf, qs[j].ef)]],
+                IN [j \in DOMAIN qs |-> LET q == qs[j]  r == AssertHasAction(S, q.ty, q.succ, q.sf, q.ef)
+                                        IN <<q.ty, q.succ, q.sf, q.ef, r.out, r.ret>>],
          am |-> LET qs == SetToSeq(UNION {MessageQueries(S, ty) : ty \in AllTypes \cup {"absent"}})
-                IN [j \in DOMAIN qs |-> [q |-> qs[j], r |-> AssertHasMessage(S, qs[j].ty, qs[j].exp)]]]
+                IN [j \in DOMAIN qs |-> LET q == qs[j]  r == AssertHasMessage(S, q.ty, q.exp)
+                                        IN <<q.ty, q.exp, r.out, r.ret>>]]
 
 \* invariants (evaluated once per distinct state)
 Domain == WellFormed(S)
